@@ -17,3 +17,11 @@ def reduce_with_initial(function, sequence, initial):
     for element in sequence:
         value = function(value, element)
     return value
+
+
+def map_list(function, sequence):
+    """list(map(function, sequence)) over a sequence of symbolic length (call-site loop spec 'map#k')"""
+    out = []
+    for element in sequence:
+        out.append(function(element))
+    return out
